@@ -60,13 +60,17 @@ def multiply(
     x1, x2 = numpoly.align_indeterminants(x1, x2)
 
     dtype = kwargs.pop("dtype", None)
+    casting = kwargs.pop("casting", "same_kind")
     if dtype is None:
         dtype = numpy.result_type(x1, x2)
     else:
         # numpy's own casting rule decides whether the operands may take the
         # requested type (raises otherwise)
         numpy.multiply(
-            numpy.empty(0, dtype=x1.dtype), numpy.empty(0, dtype=x2.dtype), dtype=dtype
+            numpy.empty(0, dtype=x1.dtype),
+            numpy.empty(0, dtype=x2.dtype),
+            dtype=dtype,
+            casting=casting,
         )
     shape = numpy.broadcast_shapes(x1.shape, x2.shape)
 
@@ -132,7 +136,7 @@ def multiply(
             for expon2, coeff2 in zip(x2.exponents, x2.coefficients):
                 key = (expon1 + expon2 + x1.KEY_OFFSET).ravel()
                 key = key.view(f"U{len(expon1)}").item()
-                term = numpy.multiply(coeff1, coeff2, dtype=dtype)
+                term = numpy.multiply(coeff1, coeff2, dtype=dtype, casting=casting)
                 if key in seen:
                     out_.values[key] += term
                 else:
